@@ -1,8 +1,53 @@
 (* C19 - Post-execution feedback rules are advisory only.
    Property theorems only; proofs are in Proofs/HookP.v. *)
 From Coq Require Import List Bool NArith String.
-From DippyV Require Import Base.Str Base.Verdict Gen.Tables Model.Hook Proofs.HookP.
+From DippyV Require Import Base.Str Base.Verdict Base.Tree Gen.Tables Model.Hook Model.HookView Model.Tokens Proofs.HookP Proofs.HookViewP Proofs.TokensP.
 Import ListNotations.
+
+(* which kind of event this is is read at the host-written level of the payload only (Model/HookView.v): a
+   hook_event_name key inside tool_input / tool_response / any other member can neither silence a pre-execution
+   event nor make a PostToolUse event answer with a decision *)
+Theorem C19_event_host_level : forall inp, event_of (host_view inp) = event_of inp /\ (post_event (host_view inp) <-> post_event inp).
+Proof. exact (fun inp => conj (event_of_view inp) (post_event_view inp)). Qed.
+Print Assumptions C19_event_host_level.
+
+(* C19_tokens (parser.py tokenize, after Parable has parsed the text; Model/Tokens.v).
+   Full statement: the tokens are the words - one surrounding pair of quotes removed - of the first simple command of
+   the first pipeline of the first list OF THE COMMAND TEXT, nothing for any other construct.
+       forall nodes, extract_tokens nodes = match nodes with t :: _ => node_tokens t | [] => [] end
+   is FALSE of the code as it is: the loop extends the result for every top-level node, and Parable returns one node per
+   line, so `git<newline>status` yields [git; status] where `git; status` yields [git] (notes/hook-findings.md F3). *)
+Theorem C19_tokens_refuted :
+  exists nodes, extract_tokens nodes <> match nodes with t :: _ => node_tokens t | [] => [] end.
+Proof. exact tokens_first_node_refuted. Qed.
+Print Assumptions C19_tokens_refuted.
+(* what is true: for ONE top-level node (a command text without an unquoted newline between commands) the tokens are the
+   words of the command found by descending list -> first part that is no operator, pipeline -> first command; a word
+   or command node is its own answer; every other kind (subshell, brace group, if, negation, time, ...) gives []. *)
+Theorem C19_tokens_partial : forall t,
+  extract_tokens [t] = match first_simple t with Some c => simple_words c | None => [] end.
+Proof. exact (fun t => eq_trans (extract_tokens_one t) (node_tokens_spec t)). Qed.
+Print Assumptions C19_tokens_partial.
+Theorem C19_tokens_lines : forall a b, extract_tokens (a ++ b) = extract_tokens a ++ extract_tokens b.
+Proof. exact extract_tokens_app. Qed.
+Print Assumptions C19_tokens_lines.
+(* _strip_quotes: a value wrapped in one pair of the same quote character loses exactly that pair; a value that does not
+   end with the quote it starts with, or is shorter than two characters, is left alone; never more than two characters go *)
+Theorem C19_strip_quotes : forall q s, q = dquote \/ q = squote -> strip_quotes (q :: s ++ [q]) = s.
+Proof. exact strip_quotes_quoted. Qed.
+Print Assumptions C19_strip_quotes.
+Theorem C19_strip_quotes_unbalanced : forall a b r, last (b :: r) 0%N <> a -> strip_quotes (a :: b :: r) = a :: b :: r.
+Proof. exact strip_quotes_unbalanced. Qed.
+Print Assumptions C19_strip_quotes_unbalanced.
+Theorem C19_strip_quotes_length : forall v,
+  (length (strip_quotes v) = length v \/ length (strip_quotes v) + 2 = length v)%nat.
+Proof. exact strip_quotes_length. Qed.
+Print Assumptions C19_strip_quotes_length.
+Example C19_tokens_example_pipeline :
+  extract_tokens [T $"pipeline" [] [] [($"commands", cmd [$"'git'"; $"push"]); ($"commands", cmd [$"cat"])]] = [$"git"; $"push"].
+Proof. vm_compute. reflexivity. Qed.
+Example C19_tokens_example_subshell : extract_tokens [T $"subshell" [] [] [($"body", cmd [$"git"; $"push"])]] = [].
+Proof. vm_compute. reflexivity. Qed.
 
 Section Oracles.
   Variables S G : Type.
